@@ -19,7 +19,15 @@ fn arg<'a>(args: &'a [String], key: &str) -> Option<&'a str> {
 
 /// Entry point of every generated runner binary.
 pub fn cli_main(machines: Vec<Box<dyn Machine>>, enums: Vec<Box<dyn EnumMachine>>) {
-    std::panic::set_hook(Box::new(|_| {}));
+    // panics of the subject are observations (caught by catch_unwind); only panics raised by the engine's
+    // own code are printed, so that a machinery failure is never silent
+    std::panic::set_hook(Box::new(|info| {
+        if let Some(loc) = info.location() {
+            if loc.file().contains("regmc/src") {
+                eprintln!("machinery panic: {info}");
+            }
+        }
+    }));
     let args: Vec<String> = std::env::args().collect();
     let mode = args.get(1).cloned().unwrap_or_default();
     let spec_path = arg(&args, "--spec").expect("--spec");
@@ -68,6 +76,8 @@ pub fn cli_main(machines: Vec<Box<dyn Machine>>, enums: Vec<Box<dyn EnumMachine>
             sweep::sweep(&paired, &cfg)
         }
         "consts" => modes::consts(&paired, get("--full-n", "16").parse().unwrap(), threads),
+        "enum" => modes::enums(&epaired, get("--full-n", "16").parse().unwrap(), threads),
+        "replay" if paired.is_empty() => modes::replay_enum(&epaired, &get("--replay", "")),
         "replay" => modes::replay(&paired, &get("--replay", "")),
         other => {
             eprintln!("machinery: unknown mode {other}");
